@@ -10,8 +10,10 @@ properties.jsonl C04):
   candidates of maximal rank (EQUALS over REGEX over PREFIX; longer prefix;
   method-specific over method-agnostic), then post rules in order.
 
-Candidates of equal maximal rank (two REGEX rules; two regex hosts) are
-documented as unordered, so the spec yields a *list of admissible answers*.
+Candidates of equal maximal rank (two REGEX rules) and host patterns of equal
+specificity (two regex hosts) are documented as unordered, so the spec yields a
+*list of admissible answers*: one host pattern is chosen, then the best rule of
+that host (or, if none matches, the post rules).
 Nothing here looks at a trie or at insertion order of tree frontends.
 -/
 namespace Sozu.Router.Spec
@@ -99,27 +101,44 @@ def bestHostGroup (o : Oracle) (s : State) (host : Bytes) : List Fe :=
   let hs := treeHosts o s host
   (hs.filter fun x => !hs.any fun y => vecLt x.2 y.2).map (·.1)
 
-/-- admissible tree answers -/
-def treeRoute (o : Oracle) (s : State) (host path method : Bytes) : List Route :=
-  let cands := (bestHostGroup o s host).filterMap fun fe => (rank o fe path method).map (fe, ·)
+/-- the distinct host patterns of a list of frontends, in order of first appearance -/
+def hostsOf : List Fe → List Bytes
+  | [] => []
+  | fe :: t => if (hostsOf t).contains fe.host then hostsOf t else fe.host :: hostsOf t
+
+/-- admissible answers among the tree frontends `g` of ONE host pattern:
+    the candidates of maximal rank -/
+def bestIn (o : Oracle) (g : List Fe) (path method : Bytes) : List Route :=
+  let cands := g.filterMap fun fe => (rank o fe path method).map (fe, ·)
   (cands.filter fun x => !cands.any fun y => rankLt x.2 y.2).map (·.1.route)
 
 def firstOf (o : Oracle) (s : State) (pos : Nat) (host path method : Bytes) : Option Route :=
   (s.find? fun fe => fe.pos == pos && prePostMatch o fe host path method).map (·.route)
 
-/-- the admissible answers for a request; `[]` = no route -/
-def route (o : Oracle) (s : State) (host path method : Bytes) : List Route :=
+/-- admissible tree answers: for each most-specific host pattern (several only
+    when regex hosts tie - documented as unordered) the best candidates of that
+    host; a host without a matching candidate hands the request to the post
+    rules (`none` here) -/
+def treeRoute (o : Oracle) (s : State) (host path method : Bytes) : List (Option Route) :=
+  let g := bestHostGroup o s host
+  match hostsOf g with
+  | [] => [none]
+  | hs => hs.flatMap fun h =>
+      match bestIn o (g.filter fun fe => fe.host == h) path method with
+      | [] => [none]
+      | l => l.map some
+
+/-- the admissible answers for a request (`none` = no route) -/
+def route (o : Oracle) (s : State) (host path method : Bytes) : List (Option Route) :=
   match firstOf o s 0 host path method with
-  | some r => [r]
+  | some r => [some r]
   | none =>
-    match treeRoute o s host path method with
-    | [] => (match firstOf o s 1 host path method with | some r => [r] | none => [])
-    | l => l
+    (treeRoute o s host path method).map fun x =>
+      match x with
+      | some r => some r
+      | none => firstOf o s 1 host path method
 
 /-- the lookup answer `x` is admissible -/
-def admissible (x : Option Route) (l : List Route) : Bool :=
-  match x with
-  | none => l.isEmpty
-  | some r => l.contains r
+def admissible (x : Option Route) (l : List (Option Route)) : Bool := l.contains x
 
 end Sozu.Router.Spec
